@@ -4,6 +4,7 @@ package trafficshape
 
 import (
 	"bytes"
+	"errors"
 	"io/ioutil"
 	"net"
 	"net/http"
@@ -17,13 +18,14 @@ import (
 
 // sink is the underlying connection of a shaped connection.
 type zzsink struct {
-	got    bytes.Buffer
-	closed bool
+	got      bytes.Buffer
+	closed   bool
+	closeErr error // what Close reports (a peer that is gone, a connection closed before)
 }
 
 func (s *zzsink) Read(b []byte) (int, error)         { return 0, nil }
 func (s *zzsink) Write(b []byte) (int, error)        { s.got.Write(b); return len(b), nil }
-func (s *zzsink) Close() error                       { s.closed = true; return nil }
+func (s *zzsink) Close() error                       { s.closed = true; return s.closeErr }
 func (s *zzsink) LocalAddr() net.Addr                { return nil }
 func (s *zzsink) RemoteAddr() net.Addr               { return nil }
 func (s *zzsink) SetDeadline(t time.Time) error      { return nil }
@@ -361,6 +363,11 @@ func VerifC18Release() {
 	_, c, s := zzsetup(shape, 0, 0)
 	bs := c.LocalBuckets[zzregex]
 	vf.Assert(bs != nil, "per-connection-buckets-created")
+	// the underlying connection may report an error from Close (its peer is gone, it was closed
+	// before): the buckets created for the connection are released all the same
+	if vf.Choice("underlying-close-fails", 2) == 1 {
+		s.closeErr = errors.New("close: peer is gone")
+	}
 	c.Close()
 	vf.Assert(s.closed, "underlying-connection-closed")
 	if bs != nil {
